@@ -131,11 +131,12 @@ PROPS = {
         ],
     },
     "C08": {
-        "lean_modules": ["TableauVerif.Props.C08"],
+        "lean_modules": ["TableauVerif.Props.C08", "TableauVerif.Props.C01Grid"],
         "oracles": ["c08.twin", "c08.known"],
         "streams": [
             ("e2e.C08.twins", 240, 12000, 8),
             ("corr.protogen.parseHeader", 3000, 100000),
+            ("corr.importer.grid", 3000, 100000),
         ],
         "assumptions": [
             "the XLSX and CSV readers (excelize, encoding/csv) are trusted libraries; what they hand over differs by trailing blank cells/rows and by the text of number-typed cells, which is what the theorems are about",
@@ -229,11 +230,12 @@ PROPS = {
         ],
     },
     "C01": {
-        "lean_modules": ["TableauVerif.Props.C01", "TableauVerif.Props.C01List", "TableauVerif.Props.C01Sheet"],
+        "lean_modules": ["TableauVerif.Props.C01", "TableauVerif.Props.C01List", "TableauVerif.Props.C01Sheet", "TableauVerif.Props.C01Grid"],
         "oracles": ["c01.rt"],
         "streams": [
             ("e2e.C01.roundtrip", 8000, 300000),
             ("corr.confgen.tableParse", 6000, 200000),
+            ("corr.importer.grid", 3000, 100000),
         ],
         "assumptions": [
             "the specification of 'what a sheet states' is the Lean writer Spec.C01.write (type-DSL layout rules); generated (schema, message) cases are written by it and converted by the REAL table parser (in-memory rows through the verif hook)",
